@@ -254,7 +254,7 @@ def drive_map(item):
     elif mode == "func":
         kw["name"] = lambda idx, t: "custom%d" % idx
     try:
-        res = wf.map(func, items, **kw)
+        res = wf.map(func, [items, iter(items), (x for x in items)][variant % 3], **kw)
         names = [t.name for t in res]
         ok_reg = set(names) == set(wf.targets) and len(names) == len(set(names))
     except Exception as exc:  # noqa: BLE001
@@ -290,8 +290,11 @@ def drive_defseq(item):
             elif op["op"] == "template":
                 res = [wf.target_from_template(names[0], AnonymousTarget(inputs=[], outputs=["o%d" % k], options={}))]
             else:
+                items = ["i%d" % j for j in range(len(names))]
+                # the items may come as any iterable: a list, a one-shot iterator, a generator
+                items = [items, iter(items), (x for x in items)][(variant + k) % 3]
                 res = list(wf.map(lambda x: AnonymousTarget(inputs=[], outputs=["o%d_%s" % (k, x)], options={}),
-                                  ["i%d" % j for j in range(len(names))], name=lambda idx, t: names[idx]))
+                                  items, name=lambda idx, t: names[idx]))
             acc.append(True)
             results.append([inv.get(t.name, "?" + t.name) for t in res])
         except WorkflowError:
